@@ -38,9 +38,10 @@ def edges(bs):
     return e
 
 
-def history(rng, big=True):
-    """returns (script lines, ops) ; ops = list of dicts {line, kind, arg...} for the calls that are compared"""
-    flav = rng.choice(gen.FLAVOURS)
+def history(rng, big=True, ofsseek=False):
+    """returns (script lines, ops) ; ops = list of dicts {line, kind, arg...} for the calls that are compared;
+    ofsseek: a history for the library built with -DTEST_OFS_SEEK (OFS flavours, no truncation: its internal seeks are not the modelled ones)"""
+    flav = rng.choice([0, 2, 4]) if ofsseek else rng.choice(gen.FLAVOURS)
     bs = 512 if flav & 1 else 488
     name = hexs(b"handlefile")
     L = gen.dev_create("DD", flav) + ["mountdev 0", "mount 0 0"]
@@ -93,7 +94,7 @@ def history(rng, big=True):
         r = rng.random()
         if "w" not in mode and r < 0.15:
             # a handle without write access: write and truncate are refused and change nothing (C12_readonly_handle_never_writes)
-            if rng.random() < 0.5:
+            if rng.random() < 0.5 or ofsseek:
                 call("write 0 %d %d" % (rng.randrange(1, 1 << 20), rng.choice([1, bs, 3 * bs])), kind="write", n=1, refused=True)
             else:
                 call("trunc 0 %d" % rng.choice([0, size // 2, size + bs]), kind="trunc", t=0, refused=True)
@@ -133,7 +134,7 @@ def history(rng, big=True):
             p = rng.choice(E + [size, size, max(0, size - 1), size + 1, size // 2, pos, max(0, pos - 1), pos + 1, 0])
             call("seek 0 %d" % p, kind="seek", p=p)
             pos = min(p, size)
-        elif r < 0.86 and "w" in mode:
+        elif r < 0.86 and "w" in mode and not ofsseek:
             t = rng.choice(E + [size, max(0, size - 1), size + 1, size // 2, 0, size + 4095, size + 4096, size + 4097])
             t = min(t, maxsize)
             if rng.random() < 0.1 and t > size:
@@ -300,7 +301,7 @@ def with_faults(ctx, L, ops, meta):
 def run_one(ctx, L, ops, meta):
     """returns None or a failure tuple (kind, what, detail dict, expected, actual)"""
     bs, ofs = meta["bs"], not (meta["flavour"] & 1)
-    rc, out, err, wd = common.run_script(ctx, "\n".join(L) + "\n")
+    rc, out, err, wd = common.run_script(ctx, "\n".join(L) + "\n", variant="adfh-ofsseek" if meta.get("ofsseek") else "adfh")
     res = common.parse_results(out)
     if rc != 0:
         return ("crash", "harness exit %d in a file handle history" % rc, {"script": L, "meta": meta}, None, out[-3:])
@@ -335,7 +336,7 @@ def run_one(ctx, L, ops, meta):
         elif k == "seek":
             if o.get("bad"):
                 ML += ["bad %d" % b for b in o["bad"]]
-            ML.append("seek %d" % o["p"])
+            ML.append(("seekt %d" if meta.get("ofsseek") else "seek %d") % o["p"])
             if o.get("bad"):
                 ML += ["good %d" % b for b in o["bad"]]
                 ctx.bump("fileio_seeks_under_fault")
@@ -430,6 +431,28 @@ def run_one(ctx, L, ops, meta):
             if r2 != "ok 1":
                 return ("corr", "a block the model's truncation gives back is not free in the bitmap afterwards", {"script": L2, "meta": meta, "block": b}, "ok 1", r2)
     return None
+
+
+def run_ofsseek(ctx, n):
+    """histories on the library built with its own switch -DTEST_OFS_SEEK: every adfFileSeek on the OFS volume takes adfFileSeekOFS_, the walk
+    along the data blocks - the path a failed extension-block seek falls back to.  Model side: fio_seek_t (same seek_ofs / ofs_walk that the
+    fallback of fio_seek uses and the theorems seek_ofs_ok / fio_seek_faulty_inside are about)."""
+    cases = []
+    for i in range(n):
+        L, ops, meta = history(ctx.rng, ofsseek=True)
+        meta = dict(meta)
+        meta["ofsseek"] = True
+        L = expand_fill(ctx, L)
+        cases.append((L, ops, meta))
+    bad = 0
+    for (c, r) in zip(cases, common.pmap(lambda c: run_one(ctx, *c), cases)):
+        ctx.bump("fileio_ofsseek_histories")
+        if r:
+            kind, what, det, exp, act = r
+            ctx.fail(kind, "[TEST_OFS_SEEK build] " + what, det, expected=exp, actual=act)
+            bad += 1
+            if bad >= 3:
+                break
 
 
 def valid_history(ctx):
